@@ -599,19 +599,22 @@ class FileCache:
         # See if we need to do any cache eviction because the cache has become
         # to big.
         if not len(cache_misses) == 0:
-            self._cache_eviction()
+            self._cache_eviction(protected=filepaths)
 
         return filepaths
 
-    def _cache_eviction(self) -> bool:
+    def _cache_eviction(self, protected: Optional[List[str]] = None) -> bool:
         """
         Simple cache eviction policy. If the cache exceeds the maximum size
         remove data from the cache based on whichever file was interacted with
         the longest time ago. Evict files until we are below the acceptable
         cache size.
 
+        :param protected: filepaths that may not be evicted (the files returned
+            by the current request).
         :return: True if eviction occured, False otherwise.
         """
+        protected_files = set(protected) if protected else set()
 
         # check if we exceed the size, if not return
         if not self._size() > self.config.max_size_bytes:
@@ -620,6 +623,9 @@ class FileCache:
         # Get access/modified times for all the files in cache
         modified = []
         for _hash, fp in self._entries.items():
+            if fp in protected_files:
+                continue
+
             # From my brief reading, access time is not always reliable,
             # hence I use whatever the latest time set is for modified or
             # access time as an indicator of when we last interacted with
@@ -640,7 +646,9 @@ class FileCache:
 
         # Delete files one by one as long as the cache_size exceeds the max
         # size.
-        while (_size := self._size()) > self.config.max_size_bytes:
+        while (
+            _size := self._size()
+        ) > self.config.max_size_bytes and files_in_cache:
             self._cache_evictions += 1
             logger.debug(
                 f"Cache exceeds limits: {_size} bytes, max size: "
